@@ -114,6 +114,77 @@ theorem laws_consistent_and_witness :
     nextIntervalCapAfter natArith 100000000 (some 2) 68 (some 5000000000) = .panic := by
   decide
 
+/-! ## the builder: `new(initial)` followed by any chain of `multiplier(..)` / `max_interval(..)` -/
+
+/-- **Only the last value of each setting counts**: whatever the order and however often setters are
+repeated, the configuration a chain builds is the fresh one (`×2`, no maximum) with the multiplier
+replaced by the one set last (if any) and the maximum by the one set last (if any). -/
+theorem builder_depends_only_on_last (i : Nat) (chain : List Setter) :
+    build i chain = ofLast (newCfg i) (lastMult chain) (lastCap chain) :=
+  build_last i chain
+
+/-- … so two chains with the same last multiplier and the same last maximum build the same back-off. -/
+theorem builder_same_last_same_backoff (i : Nat) (l₁ l₂ : List Setter) (hm : lastMult l₁ = lastMult l₂)
+    (hc : lastCap l₁ = lastCap l₂) : build i l₁ = build i l₂ := by
+  rw [build_last, build_last, hm, hc]
+
+/-- **`multiplier` last wins**, wherever `max_interval` setters (or earlier `multiplier`s) stand:
+before it, after it, or on both sides. The initial interval is never touched. -/
+theorem builder_multiplier_last_wins (i p q : Nat) (pre post : List Setter) (h : ∀ s ∈ post, s.isMult = false) :
+    (build i (pre ++ .mult p q :: post)).num = p ∧ (build i (pre ++ .mult p q :: post)).den = q ∧
+    (build i (pre ++ .mult p q :: post)).initial = i := by
+  rw [build_last, lastMult_append_cons pre post p q h]
+  exact ⟨rfl, rfl, rfl⟩
+
+/-- **`max_interval` last wins**, wherever the `multiplier` setters stand. -/
+theorem builder_max_interval_last_wins (i c : Nat) (pre post : List Setter) (h : ∀ s ∈ post, s.isMult = true) :
+    (build i (pre ++ .cap c :: post)).cap = some c ∧ (build i (pre ++ .cap c :: post)).capNs = c := by
+  rw [build_last, lastCap_append_cons pre post c h]
+  exact ⟨rfl, rfl⟩
+
+/-- defaults: without a `multiplier` setter the multiplier is 2, without a `max_interval` setter there is no maximum -/
+theorem builder_defaults (i : Nat) (chain : List Setter) :
+    (build i chain).initial = i ∧
+    ((∀ s ∈ chain, s.isMult = false) → (build i chain).num = 2 ∧ (build i chain).den = 1) ∧
+    ((∀ s ∈ chain, s.isMult = true) → (build i chain).cap = none ∧ (build i chain).capNs = durMax) := by
+  rw [build_last]
+  refine ⟨rfl, fun h => ?_, fun h => ?_⟩
+  · rw [lastMult_none_of chain h]; exact ⟨rfl, rfl⟩
+  · rw [lastCap_none_of chain h]; exact ⟨rfl, rfl⟩
+
+/-- **Order-independence of distinct setters**: a `multiplier` and a `max_interval` standing next to each
+other anywhere in a chain may be exchanged. -/
+theorem builder_distinct_setters_commute (i : Nat) (pre post : List Setter) (s t : Setter) (h : s.isMult ≠ t.isMult) :
+    build i (pre ++ s :: t :: post) = build i (pre ++ t :: s :: post) :=
+  builder_same_last_same_backoff i _ _ (last_swap pre post s t h).1 (last_swap pre post s t h).2
+
+/-- a setter immediately repeated: only the second call counts -/
+theorem builder_repeated_setter_overrides (i : Nat) (pre post : List Setter) (s t : Setter) (h : s.isMult = t.isMult) :
+    build i (pre ++ s :: t :: post) = build i (pre ++ t :: post) :=
+  builder_same_last_same_backoff i _ _ (last_override pre post s t h).1 (last_override pre post s t h).2
+
+/-- **The delay clause for a back-off given by its chain**: with `p/q ≥ 1` the multiplier set last and `c`
+the maximum set last (in either order, whatever was set before and overridden), the delay equals
+`⌊initial · (p/q)^attempt⌋` for as long as that is below `c`, is exactly `c` from then on, and is
+non-decreasing — with the multiplier set last, not the one in force when the maximum was set. -/
+theorem chain_delay (i p q c : Nat) (chain : List Setter) (hq : 0 < q) (hpq : q ≤ p)
+    (hm : lastMult chain = some (p, q)) (hc : lastCap chain = some c) (a : Nat) :
+    (i * p ^ expo a / q ^ expo a < c → ideal (build i chain) a = i * p ^ expo a / q ^ expo a) ∧
+    (c ≤ i * p ^ expo a / q ^ expo a → ∀ b, a ≤ b → ideal (build i chain) b = c) ∧
+    (∀ b, a ≤ b → ideal (build i chain) a ≤ ideal (build i chain) b) := by
+  have hb : build i chain = { initial := i, num := p, den := q, cap := some c } := by
+    rw [build_last, hm, hc]; rfl
+  rw [hb]
+  have hv : Cfg.Valid { initial := i, num := p, den := q, cap := some c } := ⟨hq, hpq⟩
+  exact ⟨fun h => (ideal_exact_below_cap_aux _ hv a h).1,
+         fun h b hab => ideal_cap_reached_forever_aux _ hv a b h hab,
+         fun b hab => ideal_mono _ hv hab⟩
+
+/-- the two orders of the seeded example, anywhere in a chain: the same delay for every attempt -/
+theorem delay_independent_of_setter_order (i p q c : Nat) (pre post : List Setter) (a : Nat) :
+    ideal (build i (pre ++ .cap c :: .mult p q :: post)) a = ideal (build i (pre ++ .mult p q :: .cap c :: post)) a := by
+  rw [builder_distinct_setters_commute i pre post (.cap c) (.mult p q) (by simp [Setter.isMult])]
+
 /-! ## non-vacuity -/
 
 private def cfgD : Cfg := { initial := 100000000, num := 2, den := 1, cap := some 5000000000 }
@@ -133,6 +204,19 @@ example : ideal { initial := 1000000, num := 3, den := 2, cap := none } 3 = 3375
 /-- the envelope accepts the float result observed on the real code and rejects a value 1 µs off (1.1^100 = 13780.6…) -/
 example : allowedExp { initial := 1, num := 11, den := 10, cap := none } 100 13781 = true
     ∧ allowedExp { initial := 1, num := 11, den := 10, cap := none } 100 14781 = false := by
+  decide
+
+/-- `new(100 ms).max_interval(10 s).multiplier(1.5)` = `new(100 ms).multiplier(1.5).max_interval(10 s)`:
+100 ms × 1.5^8 = 2.562890625 s at attempt 8 (the ×2 default would have saturated there), 10 s from attempt 12 on;
+overridden and repeated setters; the empty chain -/
+example : build 100000000 [.cap 10000000000, .mult 3 2] = build 100000000 [.mult 3 2, .cap 10000000000]
+    ∧ ideal (build 100000000 [.cap 10000000000, .mult 3 2]) 8 = 2562890625
+    ∧ ideal (build 100000000 [.cap 10000000000, .mult 3 2]) 11 = 8649755859
+    ∧ ideal (build 100000000 [.cap 10000000000, .mult 3 2]) 12 = 10000000000
+    ∧ ideal (build 100000000 [.cap 10000000000]) 7 = 10000000000
+    ∧ build 5 [.mult 10 1, .cap 7, .cap 9, .mult 5 4, .cap 8] = { initial := 5, num := 5, den := 4, cap := some 8 }
+    ∧ build 5 [] = { initial := 5, num := 2, den := 1, cap := none }
+    ∧ idealExec (build 250000000 [.cap 60000000000, .mult 1 1]) 18446744073709551615 = 250000000 := by
   decide
 
 end TR.Props.C14
